@@ -674,6 +674,69 @@ of sheet `index` when `cell` is empty, and entries without sheet id at `cell` ar
 def deleteCalcChain (cc : List CalcEnt) (index : Int) (cell : Str) : List CalcEnt :=
   cc.filter fun c => !((c.i == index && c.r == cell) || (c.i == index && cell == []) || (c.i == 0 && c.r == cell))
 
+/-- a calcChain entry by coordinates -/
+structure CalcPos where
+  col : Nat
+  row : Nat
+  i : Int
+deriving DecidableEq, Repr
+
+inductive Dir where
+  | rows
+  | cols
+deriving DecidableEq, Repr
+
+/-- adjust.go `adjustCalcChain` for one entry of the edited sheet: `num` is the row/column of the
+edit, `offset` = +n for an insertion, -1 for a removal. The comparison is the regenerated
+`calcChainShiftInclusive` (`num <= rowNum` in this tree): an entry AT the edit position moves with
+its cell on insertion and is dropped on removal. Entries of other sheets are untouched. -/
+def adjustCalcEntry (dir : Dir) (num : Nat) (offset : Int) (sid : Int) (e : CalcPos) : Option CalcPos :=
+  if e.i != sid then some e else
+  let pos := match dir with | .rows => e.row | .cols => e.col
+  let hit := if Facts.C05.calcChainShiftInclusive then num ≤ pos else num < pos
+  if hit then
+    if num == pos && offset == -1 then none
+    else match dir with
+      | .rows => some { e with row := ((e.row : Int) + offset).toNat }
+      | .cols => some { e with col := ((e.col : Int) + offset).toNat }
+  else some e
+
+def adjustCalcChain (dir : Dir) (num : Nat) (offset : Int) (sid : Int) (cc : List CalcPos) : List CalcPos :=
+  cc.filterMap (adjustCalcEntry dir num offset sid)
+
+/-- what InsertRows/InsertCols/RemoveRow/RemoveCol do to the cell at (col,row) of the edited
+sheet (the grid shift of C06): cells at or after the edit position move by `offset`, the cells
+of a removed row/column disappear -/
+def shiftCellPos (dir : Dir) (num : Nat) (offset : Int) (c : Nat × Nat) : Option (Nat × Nat) :=
+  let pos := match dir with | .rows => c.2 | .cols => c.1
+  if num ≤ pos then
+    if num == pos && offset == -1 then none
+    else match dir with
+      | .rows => some (c.1, ((c.2 : Int) + offset).toNat)
+      | .cols => some (((c.1 : Int) + offset).toNat, c.2)
+  else some c
+
+/-! ### pictures sharing a media part (picture.go `AddPictureFromBytes`, `DeletePicture`) -/
+
+/-- the relationship step of AddPictureFromBytes inside one drawing: an image relationship with
+the same target is reused (regenerated fact `pictureRelReused`), otherwise one is added -/
+def addPicRel (own : List Rel) (imgType target : Str) : List Rel × Int :=
+  if Facts.C05.pictureRelReused then
+    match own.find? (fun r => r.type == imgType && r.target == target) with
+    | some r => (own, relNum r.id)
+    | none => addRels own imgType target []
+  else addRels own imgType target []
+
+/-- DeletePicture for one removed relationship id: the media part goes away unless an image
+relationship of ANOTHER relationships part targets it (the drawing's own part is skipped);
+the relationship itself is removed from the drawing's part -/
+def deletePicRel (own others : List Rel) (media : List Str) (imgType rid : Str) : List Rel × List Str :=
+  match own.find? (fun r => r.id == rid) with
+  | none => (own, media)
+  | some r =>
+    let used := others.any fun o => o.type == imgType && o.target == r.target
+    (own.filter (fun x => x.id != rid), if used then media else media.filter (· != r.target))
+
 /-! ### shared strings (cell.go `setSharedString`, tail of `SetCellRichText`) -/
 
 inductive SI where
